@@ -60,6 +60,10 @@ func CheckStatus(opts Options) ([]*result.CertRevocationResult, error) {
 		HTTPClient:  opts.HTTPClient,
 	}
 
+	// panicChan is used to store the panic in goroutine and handle it
+	panicChan := make(chan any, len(opts.CertChain))
+	defer close(panicChan)
+
 	// Check status for each cert in cert chain
 	var wg sync.WaitGroup
 	ctx := context.Background()
@@ -68,6 +72,13 @@ func CheckStatus(opts Options) ([]*result.CertRevocationResult, error) {
 		// Assume cert chain is accurate and next cert in chain is the issuer
 		go func(i int, cert *x509.Certificate) {
 			defer wg.Done()
+			defer func() {
+				if r := recover(); r != nil {
+					// catch panic and send it to panicChan to avoid
+					// losing the panic
+					panicChan <- r
+				}
+			}()
 			certResults[i] = ocsp.CertCheckStatus(ctx, cert, opts.CertChain[i+1], certCheckStatusOptions)
 		}(i, cert)
 	}
@@ -81,5 +92,13 @@ func CheckStatus(opts Options) ([]*result.CertRevocationResult, error) {
 	}
 
 	wg.Wait()
+
+	// handle panic
+	select {
+	case p := <-panicChan:
+		panic(p)
+	default:
+	}
+
 	return certResults, nil
 }
